@@ -13,6 +13,15 @@ C15 driver.
         (hb: 0 = Metropolis on both, 1 = heat-bath on the Ising sampler only, 2 = on both)
   diagstep <edges> <Γ> <h> <nvars> <cutoff> <β> <seed> <kpre> <kpost> <observed>
       → `<observation allowed 0|1>` (diagonal sweeps only: must be `same` for every h)
+  lockstep-hist <edges> <Γ> <h> <nvars> <cutoff> <β> <seed> <kpre> <prehb> <split> <hist> <observed>
+      → `<allowed 0|1> <cluster gate> <generic flag at the end> <ising table at the end> <energy difference>`
+        option history applied to BOTH samplers after the conversion: hist = `1x3,0x5,1x2` = heat-bath on, 3 steps; off, 5 steps;
+        on, 2 steps (`set_enable_heatbath` / `set_do_heatbath` before each block); prehb = option set on the Ising sampler before
+        the kpre steps and the conversion (`convert_trajectory_option_history`: must be `same` when the gate is on)
+  lockstep-swap <edgesA> <ΓA> <edgesB> <ΓB> <nvars> <cutA at swap> <cutB at swap> <β> <seed> <kpreA> <kpreB> <hbA> <hbB> <who> <kpost> <observed>
+      → `<allowed 0|1> <cluster gate> <table present on the chosen sampler after the swap> <its cutoff after the swap> <energy difference>`
+        two Ising samplers (h = 0), options set before the swap, raw `swap_manager_and_state`, sampler `who` (a|b) converted,
+        `set_do_heatbath(<its own option>)` on the conversion, kpost lock-step steps (`convert_after_swap_trajectory`)
 edges = `a,b:J!a,b:J…`
 -/
 
@@ -37,6 +46,14 @@ def bondTok (i : Interaction) : String :=
 
 def joinOr (sep : String) (xs : List String) : String :=
   if xs.isEmpty then "-" else String.intercalate sep xs
+
+/-- `1x3,0x5` → [(true, 3), (false, 5)] -/
+def parseHist (s : String) : List (Bool × Nat) :=
+  if s == "-" || s == "" then [] else
+  (s.splitOn ",").filterMap fun tok =>
+    match tok.splitOn "x" with
+    | [b, k] => some (b == "1", parseNat k)
+    | _ => none
 
 def step (toks : List String) : String :=
   match toks with
@@ -70,6 +87,42 @@ def step (toks : List String) : String :=
     match intoQmc g with
     | .ok _ => showBool (observed == "same")
     | _ => "0"
+  | ["lockstep-hist", edges, gam, h, nv, cutoff, _beta, _seed, _kpre, prehb, _split, hist, observed] =>
+    let g : IsingSampler :=
+      { model := mkModel edges gam h nv, state := [], cutoff := parseNat cutoff, slots := [],
+        heatbath := prehb == "1" }
+    match intoQmc g with
+    | .ok q =>
+      -- the flags both samplers carry after the history: those of the last block
+      let blocks := parseHist hist
+      let qEnd := blocks.foldl (fun q blk => q.setDoHeatbath blk.1) q
+      let gEnd := blocks.foldl (fun g blk => g.setEnableHeatbath blk.1) g
+      let gate := q.shouldDoClusterUpdate
+      -- `convert_trajectory_option_history`: same flag sequence on both sides, no field, no RVB
+      let allowed := !gate || observed == "same"
+      let ediff := if observed == "same" then showApprox (g.energy 1 1 - q.energy 1 1) else "~0"
+      s!"{showBool allowed} {showBool gate} {showBool qEnd.doHeatbath} {showBool gEnd.heatbath} {ediff}"
+    | _ => "0 ? ? ? ?"
+  | ["lockstep-swap", edgesA, gamA, edgesB, gamB, nv, cutA, cutB, _beta, _seed, _kpreA, _kpreB, hbA, hbB, who,
+      _kpost, observed] =>
+    let a : IsingSampler :=
+      { model := mkModel edgesA gamA "0/1" nv, state := [], cutoff := parseNat cutA, slots := [],
+        heatbath := hbA == "1" }
+    let b : IsingSampler :=
+      { model := mkModel edgesB gamB "0/1" nv, state := [], cutoff := parseNat cutB, slots := [],
+        heatbath := hbB == "1" }
+    let sw := swapIsing a b
+    let c := if who == "a" then sw.1 else sw.2
+    match intoQmc c with
+    | .ok q =>
+      -- the conversion is told the option of the sampler it was taken from
+      let q := q.setDoHeatbath c.heatbath
+      let gate := q.shouldDoClusterUpdate
+      -- `convert_after_swap_trajectory`
+      let allowed := !gate || observed == "same"
+      let ediff := if observed == "same" then showApprox (c.energy 1 1 - q.energy 1 1) else "~0"
+      s!"{showBool allowed} {showBool gate} {showBool c.heatbath} {c.cutoff} {ediff}"
+    | _ => "0 ? ? ? ?"
   | [kind, edges, gam, h, nv, cutoff, _beta, _seed, _kpre, _kpost, rvb, hb, observed] =>
     if !kind.startsWith "lockstep" then "bad-op" else
     let g : IsingSampler :=
